@@ -43,6 +43,13 @@ func init() {
 	reg(rt+"Bool", func(fr *frame, args []Value) Value {
 		return fr.e.freshVar(fr.e.mustConcStr(args[0], "input name"), 0)
 	})
+	reg(rt+"Len", func(fr *frame, args []Value) Value {
+		e := fr.e
+		v := e.freshVar(e.mustConcStr(args[0], "input name"), 64)
+		lo := int64(e.concretize(args[1].(*Term), "Len lo"))
+		hi := int64(e.concretize(args[2].(*Term), "Len hi"))
+		return e.tt.BV(64, uint64(e.forkRange(v, lo, hi)))
+	})
 	reg(rt+"Concretize", func(fr *frame, args []Value) Value {
 		e := fr.e
 		return e.tt.BV(64, e.concretize(args[0].(*Term), "rt.Concretize"))
@@ -87,6 +94,41 @@ func init() {
 		e := fr.e
 		e.observed = append(e.observed, fmt.Sprintf("%s=%s", e.mustConcStr(args[0], "observe"), args[1].(*Term).String()))
 		return nil
+	})
+	reg(rt+"All", func(fr *frame, args []Value) Value {
+		r := fr.e.tt.True
+		for _, c := range args[0].(Slice).a {
+			r = fr.e.tt.And(r, c.(*Term))
+		}
+		return r
+	})
+	reg(rt+"Any", func(fr *frame, args []Value) Value {
+		r := fr.e.tt.False
+		for _, c := range args[0].(Slice).a {
+			r = fr.e.tt.Or(r, c.(*Term))
+		}
+		return r
+	})
+	reg(rt+"Implies", func(fr *frame, args []Value) Value {
+		return fr.e.tt.Or(fr.e.tt.Not(args[0].(*Term)), args[1].(*Term))
+	})
+	reg(rt+"EqBytes", func(fr *frame, args []Value) Value {
+		e := fr.e
+		a, b := args[0].(Slice).a, args[1].(Slice).a
+		if len(a) != len(b) {
+			return e.tt.False
+		}
+		r := e.tt.True
+		for i := range a {
+			r = e.tt.And(r, e.tt.Eq(a[i].(*Term), b[i].(*Term)))
+		}
+		return r
+	})
+	reg(rt+"EqStr", func(fr *frame, args []Value) Value {
+		return fr.e.strEq(args[0].(Str), args[1].(Str))
+	})
+	reg(rt+"IteU64", func(fr *frame, args []Value) Value {
+		return fr.e.tt.Ite(args[0].(*Term), args[1].(*Term), args[2].(*Term))
 	})
 	reg(rt+"Symbolic", func(fr *frame, args []Value) Value { return fr.e.tt.True })
 	reg(rt+"Thorough", func(fr *frame, args []Value) Value { return fr.e.tt.Bool(fr.e.cfg.Thorough) })
